@@ -585,6 +585,8 @@ class ExecBase:
             st = st.assume(term > 0, term < ALLOC0, z3.Or([g for g, _ in v.alts]))
         if k in ("list", "dict"):
             st = st.assume(term < st.alloc_ptr())   # a stored container exists already (never a not-yet-allocated address)
+        if k == "list":
+            st = st.assume(z3.Select(self._len_arr(st), term) >= 0)   # lengths are non-negative
         return v, st
 
     def write_field(self, ref: VRef, definer: type, attr: str, val: V, st: State) -> State:
